@@ -14,6 +14,14 @@ CHECKS = {
  "C03": ("proof", "contract-based deductive verification + lemmas over contracts (fixed point / strict form)",
          "Every lax validator has a full functional contract proved on the real source; convergence (lax(lax(v)) is lax(v)) and "
          "strict-form acceptance are lemmas discharged over the contracts for the exact domains (int, str, Decimal, list/tuple).", "DESIGN 3 C03"),
+ "C18": ("other", "contract-based deductive verification of RuntimeContext.__init__/enter, Options.make_context, parser make_context + chain lemma over the contracts + AST audit of every context-creating call site; cost clause not decided",
+         "Depth half of C18 proved: depth = parent depth + (1 iff no route) for every route value (0, '' and non-str/int routes included), DepthExceedError exactly when max_depth is set and depth > max_depth, "
+         "element/key/branch contexts keep depth and limit (lemma over the contracts: induction step between two data-class levels), every enter() site passes a route and every make_context/RuntimeContext site none (audit). "
+         "The polynomial-cost clause is not decided by any contract here (DESIGN 3 C18) - hence 'other', not 'proof'.", "DESIGN 3 C18"),
+ "C10": ("other", "contract-based deductive verification of the error-collection protocol (RuntimeContext.handle_error / raise_error / collect_tmp_error / clear_tmp_error / enter / __init__) and of its callers' verdict invariance",
+         "Protocol proved for all states: handle_error records e, raises e itself iff forced or fail-fast, raises one CollectedParseError carrying everything recorded iff the max_errors cap is reached, else returns; "
+         "raise_error returns iff nothing is recorded; sub-contexts start empty and leave the parent's lists untouched. Callers (verdict invariance: a normal return implies nothing recorded) are under contract as listed in the evidence; "
+         "'names exactly the failing top-level items' is not decided.", "DESIGN 3 C10"),
  "C16": ("proof", "contract-based deductive verification: representation invariant of TypeRegistry preserved by every operation",
          "The registry's list/cache are related to an abstract view (entries with priority and ghost registration stamp); "
          "I1 priority order, I2 most-recent-first, I3 cache coherence, I4 stamps are established by __init__ and preserved by the register "
